@@ -203,6 +203,22 @@ func vhC01Op(env *vhEnv, ref []*vhRefRule, step, op int) []*vhRefRule {
 		return ref
 	case 5:
 		return ref
+	case 6: // add a scheduled rule (possibly over an event rule): events never dispatch it
+		id := vhIdD(vchoose(2))
+		f := Map{"rule": map[string]interface{}{
+			"schedule": "+1s",
+			"action":   map[string]interface{}{"code": "1"},
+		}}
+		_, err := env.state.Add(env.ctx, id, f)
+		vassert(err == nil, "add-rule-succeeds")
+		return vhRefSet(ref, id, nil)
+	case 7: // add a rule whose when has an optional property ("??o" matches with or without it)
+		id := vhIdD(vchoose(2))
+		b := &vhB{prefix: pre, lite: true}
+		when := map[string]interface{}{vhCKey(): b.leaf("?x"), vhCKey(): "??o"}
+		_, err := env.state.Add(env.ctx, id, vhRuleFact(when))
+		vassert(err == nil, "add-rule-succeeds")
+		return vhRefSet(ref, id, when)
 	}
 	vassume(false)
 	return ref
